@@ -5,6 +5,8 @@ import HbsLms.Props.C03
 import HbsLms.Props.C04
 import HbsLms.Props.C05
 import HbsLms.Props.C06
+import HbsLms.Props.C07
+import HbsLms.Props.C07Rfc
 import HbsLms.Props.C08
 import HbsLms.Props.C09
 import HbsLms.Props.C10
